@@ -53,6 +53,13 @@ def _analyse_variant(args) -> dict:
                 r = subprocess.run(['patch', '-p1', '-s', '-f', '-i', variant['patch']], capture_output=True, text=True, cwd=tmp)
             if r.returncode != 0:
                 return {'id': variant['id'], 'status': 'skipped', 'reason': 'patch no longer applies to the current tree'}
+        elif variant is not None and variant.get('transform') == 'unparse':
+            import ast as _ast
+            import glob as _glob
+
+            for p in _glob.glob(os.path.join(dst, '*.py')):
+                text = _ast.unparse(_ast.parse(open(p, encoding='utf-8').read())) + '\n'
+                open(p, 'w', encoding='utf-8').write(text)
         elif variant is not None:
             edits = variant.get('edits') or [(variant['file'], variant['old'], variant['new'])]
             for f, old, new in edits:
@@ -89,13 +96,17 @@ def variants_for(prop: str) -> tuple[list[dict], list[dict]]:
     neutrals = list(M.NEUTRALS)
     import glob
 
+    neutrals.append({'id': 'reformat-whole-tree', 'transform': 'unparse', 'what': 'every module re-printed by ast.unparse (comments dropped, quotes, line breaks and parentheses changed)'})
     for pth in sorted(glob.glob(os.path.join(VERIF, 'neutral', '*', 'patch.diff'))):
         neutrals.append({'id': 'refactor-' + os.path.basename(os.path.dirname(pth)), 'patch': pth, 'what': 'independently written behaviour-preserving refactoring (suite passes)'})
     seeded = []
     for pth in sorted(glob.glob(os.path.join(VERIF, 'seeded', prop + '-*', 'patch.diff'))):
         meta = os.path.join(os.path.dirname(pth), 'meta.json')
-        if os.path.exists(meta) and __import__('json').load(open(meta)).get('seed_base'):
+        md = __import__('json').load(open(meta)) if os.path.exists(meta) else {}
+        if md.get('seed_base'):
             continue  # applies to an earlier commit of /repo (the defect it relied on was repaired since)
+        if md.get('expected_uncaught'):
+            continue  # a documented miss (DESIGN.md section 9): the change re-exposes an already listed known finding through an unchanged construct
         seeded.append({'id': 'seeded-' + os.path.basename(os.path.dirname(pth)), 'prop': prop, 'expect': ['*'], 'patch': pth, 'what': 'independently written regression (confirmed dynamically)'})
     return muts + seeded, neutrals
 
